@@ -111,9 +111,9 @@ RunResult run_w14(const Plan& pl) {
         std::string e2 = compare(A, C, t2, L, 2.5e3, at2);
         // "to rounding accuracy": a trajectory in which a discrete decision hangs on the last bits (an exact tie between two
         // coupling partners at a junction of three cells, say) cannot be judged. Such a trajectory also diverges from itself
-        // when the input is re-rounded, i.e. moved by ~1e-12 L (thousands of ulps, far below any tolerance of the code).
+        // when the input is re-rounded, i.e. moved by 1e-13..1e-10 L (far below any tolerance of the code); twelve such runs are tried.
         bool unstable = false;
-        if (!e2.empty()) { sim::Rng rp((uint64_t)pl.get("shift_seed", 1) * 31 + 7); for (int k = 0; k < 8 && !unstable; k++) { V3 tp = random_unit(rp) * (1e-12 * L * rp.uni(0.5, 2)); std::vector<PopRec> P = execute(pl, tp, res, false); size_t atp = 0; if (!compare(A, P, tp, L, 2.5e3, atp).empty() && atp <= std::max(at1, at2)) unstable = true; } }
+        if (!e2.empty()) { sim::Rng rp((uint64_t)pl.get("shift_seed", 1) * 31 + 7); for (int k = 0; k < 12 && !unstable; k++) { V3 tp = random_unit(rp) * (std::pow(10.0, -13 + (k % 4)) * L * rp.uni(0.5, 2)); std::vector<PopRec> P = execute(pl, tp, res, false); size_t atp = 0; if (!compare(A, P, tp, L, 2.5e3, atp).empty() && atp <= std::max(at1, at2)) unstable = true; } }
         if (unstable) { res.probes.hit("rounding_unstable_discarded"); res.nontrivial = false; }
         else if (!e2.empty()) { std::ostringstream d; d << "after iteration " << at1 << " with translation (" << t1.x << "," << t1.y << "," << t1.z << "): " << e1 << "; confirmed with an independent translation of the same class after iteration " << at2 << ": " << e2; res.fail("C14", "translation", d.str()); }
         else res.probes.hit("mismatch_not_confirmed");
